@@ -4,12 +4,13 @@ CONSTANTS
   Res = 2
   DT1 = 0
   DT45 = 1
-  FCaps = {0, 1}
+  FCaps = {1}
   FMaxT = 1
   TTIs = {1}
-  TTLs = {0, 1}
+  TTLs = {1}
   Lowers = {0, 50}
   Usages = {2}
+  EnvFiles = {"f1"}
 INVARIANT CInv
 PROPERTY PersistProtected NormalPassExact ThresholdPassSubset PolicyOrder
 CONSTRAINT FBound
